@@ -466,10 +466,10 @@ func (self *Compiler) compileExpr(node ast.AnalyzedExpression) {
 		self.insert(newOneStringInstruction(Opcode_Jump, afterCatchLabel), node.Range)
 
 		// exception case
-		mangledExceptionName := self.mangleVar(node.CatchIdent.Ident())
 		self.insert(newOneStringInstruction(Opcode_Label, exceptionLabel), node.Range)
 		self.pushScope()
 		defer self.popScope()
+		mangledExceptionName := self.mangleVar(node.CatchIdent.Ident())
 		self.insert(newOneStringInstruction(Opcode_SetVarImm, mangledExceptionName), node.Range)
 		self.insert(newPrimitiveInstruction(Opcode_PopTryLabel), node.Range)
 		self.compileBlock(node.CatchBlock, false)
